@@ -58,7 +58,9 @@ def envelope(case):
     has_dec = kind in ("shared", "crossbar", "decoder")
     has_arb = kind in ("shared", "crossbar", "arbiter")
     if not case["w_after_aw"]:
-        if has_dec and S > 1:
+        # write data ahead of its address is routed by whatever the idle AW channel shows: wrong with several slaves, and
+        # with one slave too when the idle address lines carry garbage (the decode then flickers)
+        if has_dec and (S > 1 or case.get("gm") is not None):
             return "c08:axi-decoder-w-before-aw"
     if has_dec and S > 1 and case["K"] > 1 and not case.get("one_target", True):
         return "c08:axi-decoder-outstanding"
@@ -144,7 +146,9 @@ def st_case(tier, kinds=("shared", "shared", "crossbar", "crossbar", "arbiter", 
                 "K": K, "one_target": True, "w_after_aw": not w_before, "err": err, "block": blk,
                 "ms": [axil.st_chan_scheds(draw) for _ in range(M)], "ss": [axil.st_chan_scheds(draw) for _ in range(S)],
                 "Q": draw(st.sampled_from([1, 2, 4])), "wait_valid": draw(st.booleans()), "w_needs_aw": draw(st.booleans()),
-                "gm": draw(st.one_of(st.none(), st.integers(0, 999))), "gs": draw(st.one_of(st.none(), st.integers(0, 999))),
+                # (no garbage on the master's idle channels where write data runs ahead of its address through a decoder: known finding)
+                "gm": draw(st.one_of(st.none(), st.integers(0, 999))) if not (w_before and kind in ("shared", "crossbar", "decoder")) else None,
+                "gs": draw(st.one_of(st.none(), st.integers(0, 999))),
                 "seed": draw(st.integers(0, 2 ** 16))}
     return case()
 
